@@ -212,6 +212,13 @@ pub fn directive_file(rng: &mut Rng, o: &DirGenOpts) -> DirFile {
   let lead = rng.below(4);
   for _ in 0..lead {
     match rng.below(7) {
+      0 if rng.chance(1, 2) => {
+        // a comment whose first word merely starts with the file word: not a directive, and nothing after it changes
+        feats.push("near-miss-file-word");
+        let suffix = ["d-rules:", "s", "X", "_", "é"][rng.below(5)];
+        let (ct, _) = code_list(rng, &mut feats);
+        b.same(&format!("// {}{} {}{}", o.file_word, suffix, ct, nl));
+      }
       0 => b.same(&format!("// a leading comment{}", nl)),
       1 => b.same(&format!("/* leading block */{}", nl)),
       2 => {
@@ -274,6 +281,15 @@ pub fn directive_file(rng: &mut Rng, o: &DirGenOpts) -> DirFile {
     3 => {
       feats.push("first-item=directive-prologue");
       b.same(&format!("\"use strict\";{}", nl));
+    }
+    5 if o.ts => {
+      // decorators before `export`: the item's span starts at `export`, the comments hang on the decorator
+      feats.push("first-item=decorated-export");
+      if rng.chance(1, 2) {
+        b.same(&format!("@dec export class Kd{} {{}}{}", n, nl));
+      } else {
+        b.same(&format!("@dec{}export default class Kdd{} {{}}{}", nl, n, nl));
+      }
     }
     4 => {
       feats.push("first-item=class");
